@@ -687,7 +687,10 @@ def check(run: Run) -> None:
         "random well-formed models biased towards initial assignments (on variables and parameters, chained through derived "
         "quantities, reaction rates, surrogate outputs and each other); observed: initial conditions, parameter values, derived "
         "parameter/variable names, Simulator default y0, and the full argument table at the declared initial state and two other "
-        "states/times (frozen vs recomputed); non-trivial = model has an initial assignment or a derived quantity; distinct by model"
+        "states/times (frozen vs recomputed); non-trivial = model has an initial assignment or a derived quantity; distinct by model; "
+        "own stream 'c13-draw': models with a planted variable whose assignment function DRAWS (k-th draw of the model = polynomial + k), "
+        "a parameter assigned from it and a derived parameter behind it; two resolutions per model around a public edit; judged: "
+        "exactly one evaluation per resolution and every shown number resolved from it"
     )
     run.check_proofs(PROOF_AREA, PROPS)
     run.assumptions += [
